@@ -37,6 +37,8 @@ mod k_disc;
 mod k_valid;
 #[cfg(feature = "k_codec")]
 mod k_codec;
+#[cfg(feature = "k_comp")]
+mod k_comp;
 
 pub type OpResult = Result<Value, String>;
 
@@ -77,6 +79,8 @@ fn dispatch(op: &str, input: &mut Value) -> OpResult {
     "valid" => k_valid::eval(op, input),
     #[cfg(feature = "k_codec")]
     "codec" => k_codec::eval(op, input),
+    #[cfg(feature = "k_comp")]
+    "comp" => k_comp::eval(op, input),
     _ => Err(format!("unknown-op:{op}")),
   }
 }
